@@ -30,6 +30,7 @@ var c19Paths = []string{
 	"del(%C[0])", "del(%C.k)", "for %C = 3 { }", "for %C = 3 { println(\"in\", %C) }", "for %C = 1:3 { println(\"in\", %C) }", "for %C = [7] { println(\"in\", %C) }", "func(%C) { println(\"in\", %C) }(%v)", "for %C = 0:3 { }", "for %C = [7, 8] { }", "for %C := 2 { }",
 	"func(%C) { %C }(%v)", "func(%C) { %C = 1; %C }(%v)", "func(a, %C) { %C }(1, %v)", "func() { %C = %v }()", "g9 = func() { %C = %v }; g9()", `eval("%C = 77")`, `eval("%C[0] = 77")`,
 	"b9 = %C; b9[0] = %v", "b9 = %C; b9.k = %v", "%C = %C + [%v]", "%C = %C + {9: %v}", "func() { %C := %v; %C }()", "f9 = func(x) { x[0] = %v; x }; f9(%C)", "f9 = func(x) { x.k = %v; x }; f9(%C)",
+	"func(U9) { U9 = U9 + 1; U9 }(3)", "func(U9) { ++U9; U9 }(3)", "func(U9) { for U9 = 2 { }; U9 }(3)", "func(U9) { U9 = \"s\"; U9 }(3)", "for U8 = 2 { U8 = 5 }", "func(a, U9) { U9-- }(1, 2)",
 	"[%C][0][0]", "%C = %C", "func(x) { %C = x }(%v)", "for e9 = [%v] { %C = e9 }", "x9 = %C; x9 = %v", "%C, b9 = %v",
 	"f9 = func(..) { %C = ..[0] }; f9(%v)", "m9 = {\"c\": %C}; m9.c = %v", "func %C() { 1 }", "%C = func() { 2 }", "del(%C[1])", "%C[1] = %v", "b9 = %C + []; b9[0] = %v", "b9 = %C[0:]; b9[0] = %v", "b9 = rest(%C); b9[0] = %v",
 }
@@ -130,7 +131,7 @@ func runC19(c *core.Ctx) {
 		return true
 	}
 	ok := true
-	names := []string{"C", "C2_X"}
+	names := []string{"C", "C2_X", "X0", "V10_A"}
 	// singles: value x path x scope x new value equal/different
 	for _, cname := range names {
 		for _, val := range c19Vals {
